@@ -124,11 +124,19 @@ pub use cache_api::{Cache, ResizableCache};
 pub mod lfu;
 pub use lfu::{WTinyLFUCache, WTinyLFUCacheBuilder};
 
-#[cfg(feature = "std")]
+#[cfg(all(feature = "std", not(all(kani, feature = "verif-hooks"))))]
 use std::collections::{HashMap, HashSet};
 
-#[cfg(not(feature = "std"))]
+#[cfg(all(not(feature = "std"), not(all(kani, feature = "verif-hooks"))))]
 use hashbrown::{HashMap, HashSet};
+
+// verification only (/verif): under Kani the hash index is replaced by an executable rendering of
+// its assumed contract (an association list); normal builds are unaffected.
+#[cfg(all(kani, feature = "verif-hooks"))]
+#[path = "/verif/kani/vmap.rs"]
+mod verif_map;
+#[cfg(all(kani, feature = "verif-hooks"))]
+use verif_map::{HashMap, HashSet};
 
 #[macro_use]
 mod macros;
@@ -319,3 +327,7 @@ impl<K: Clone, V: Clone> Clone for PutResult<K, V> {
 }
 
 impl<K: Copy, V: Copy> Copy for PutResult<K, V> {}
+
+#[cfg(feature = "verif-hooks")]
+#[path = "/verif/kani/hooks_lib.rs"]
+mod verif_hooks;
